@@ -17,7 +17,17 @@ Items, in any order:
   c<hex>                   the coveralls `git` object as printed (read by `jsonParse`)
   t<hex> | tn              ActiveData `percentage_covered` tokens in document order (tn = null)
   v<fill>                  cobertura float attributes / timestamp (as `c03.cobbytes.ser`'s V)
+  k<stem hex>=<gcno hex>=<gcda hex>,…   an LLVM-mode gcno item with its gcda buffers (possibly none)
+  r<abs hex>=<bytes hex>   `File::open(abs)` + `read_to_end` succeed with these bytes (html pages)
+  oprecision=<n> | odate=<hex> | obundled=<0|1> | oprefix=<hex>
+                           `--precision`, the html date as printed (absent: `--no-date`),
+                           `--html-resources bundled`, `--abs-link-prefix`
 Answer: `ok <hex of the report>` | `panic`.
+
+  run.html  <same header> | item…   → ok <path hex>=<bytes hex> …  (sorted by path) | panic
+  run.multi <same header, T<kind>,<kind>,…> | item…
+                                    → ok <path hex>=<bytes hex> …  (files of the output directory,
+                                      a later write replacing an earlier one; sorted) | panic
 -/
 import GrcovModel.Cli.RunAll
 import GrcovModel.Drv.C11
@@ -36,7 +46,12 @@ def parseType (s : String) : Option OutType :=
   | "Tcobertura" => some .cobertura
   | "Tade" => some .ade
   | "Tfiles" => some .files
+  | "Tmarkdown" => some .markdown
   | _ => none
+
+def parseKinds (s : String) : Option (List OutKind) :=
+  (splitList (s.drop 1).toString ",").mapM fun n =>
+    if n = "html" then some OutKind.html else (parseType ("T" ++ n)).map OutKind.stream
 
 def parseSortTypes (s : String) : Option (List MainGlue.OutputType) :=
   let t := (s.drop 1).toString
@@ -62,6 +77,11 @@ structure Items where
   git : Option Json := none
   pcts : List Json := []
   cobFill : List ((List Nat × String) × List Nat) := []
+  raws : List (List Nat × List Nat) := []
+  precision : Nat := 2
+  date : Option (List Nat) := none
+  bundled : Bool := false
+  absPrefix : Option (List Nat) := none
 
 def pair (s : String) : Option (List Nat × List Nat) :=
   match s.splitOn "=" with
@@ -89,6 +109,19 @@ def addItem (it : Items) (s : String) : Option Items :=
   else if s.startsWith "t" then (fromHex body).map fun b => { it with pcts := it.pcts ++ [.tok b] }
   else if s.startsWith "v" then
     (CobBytes.parseFill ("V" ++ body)).map fun tab => { it with cobFill := tab }
+  else if s.startsWith "k" then
+    match body.splitOn "=" with
+    | [a, b, c] => do
+      let stem ← fromHex a
+      let g ← fromHex b
+      let ds ← (splitList c ",").mapM fromHex
+      pure { it with inputs := it.inputs ++ [.gcno stem g ds] }
+    | _ => none
+  else if s.startsWith "r" then (pair body).map fun p => { it with raws := it.raws ++ [p] }
+  else if s.startsWith "oprecision=" then (s.drop 11).toString.toNat?.map fun n => { it with precision := n }
+  else if s.startsWith "odate=" then (fromHex (s.drop 6).toString).map fun b => { it with date := some b }
+  else if s.startsWith "obundled=" then some { it with bundled := (s.drop 9).toString = "1" }
+  else if s.startsWith "oprefix=" then (fromHex (s.drop 8).toString).map fun b => { it with absPrefix := some b }
   else none
 
 def parseItems (ss : List String) : Option Items := ss.foldlM addItem {}
@@ -96,9 +129,9 @@ def parseItems (ss : List String) : Option Items := ss.foldlM addItem {}
 /-- the driver's `Regex::is_match`: the regex is a literal, it matches iff it occurs in the line -/
 def literalMatch (rx : List Nat) (line : List Nat) : Bool := FileFilter.hasSub rx line
 
-def parseRun : List String → Option (Opts × World × List Input)
+def parseRunWith (parseT : String → Option OutType) : List String → Option (Opts × World × List Input)
   | t :: u :: b :: s :: p :: m :: i :: k :: e :: f :: w :: d :: x :: q :: "|" :: items => do
-    let out ← parseType t
+    let out ← parseT t
     let sortTypes ← parseSortTypes u
     let excl ← parseExcl q
     let (branch, cfg, fs, _) ← parseCliCfg (b :: s :: p :: m :: i :: k :: e :: f :: w :: d :: x :: ["|"])
@@ -111,9 +144,12 @@ def parseRun : List String → Option (Opts × World × List Input)
         cobFill := CobBytes.fillOf it.cobFill }
     let o : Opts :=
       { cfg, branch, excl, isMatch := literalMatch, out, sortTypes
-        hash := HashOrder.ofListing it.recOrder, pr }
-    pure (o, { fs, text := fun abs => AList.get? it.texts abs }, it.inputs)
+        hash := HashOrder.ofListing it.recOrder, pr
+        precision := it.precision, htmlDate := it.date, htmlBundled := it.bundled, absPrefix := it.absPrefix }
+    pure (o, { fs, text := fun abs => AList.get? it.texts abs, raw := fun abs => AList.get? it.raws abs }, it.inputs)
   | _ => none
+
+def parseRun : List String → Option (Opts × World × List Input) := parseRunWith parseType
 
 def handleRunAll (args : List String) : String :=
   match parseRun args with
@@ -122,5 +158,37 @@ def handleRunAll (args : List String) : String :=
     | .ok bytes => "ok " ++ toHex bytes
     | .panic _ => "panic"
   | none => "bad-op"
+
+/-- `set` semantics of a directory: a later write replaces an earlier one; printed sorted by path -/
+def showFiles (fs : List (List Nat × List Nat)) : String :=
+  let m := fs.foldl (fun m f => AList.set m f.1 f.2) ([] : List (List Nat × List Nat))
+  let arr := (m.map fun f => (toHex f.1, f.2)).toArray.qsort (fun a b => a.1 < b.1)
+  " ".intercalate (arr.toList.map fun f => f.1 ++ "=" ++ toHex f.2)
+
+def joinNames (ns : List (List Nat)) : List Nat := UPath.join ns
+
+def handleRunHtml (args : List String) : String :=
+  match parseRunWith (fun _ => some .lcov) args with
+  | some (o, w, ins) =>
+    match runHtml o w ins with
+    | .ok files => "ok " ++ showFiles (files.map fun f => (joinNames f.1, f.2))
+    | .panic _ => "panic"
+  | none => "bad-op"
+
+def flatten : List Artifact → List (List Nat × List Nat)
+  | [] => []
+  | .file n b :: rest => (n, b) :: flatten rest
+  | .dir n fs :: rest => (fs.map fun f => (joinNames (n :: f.1), f.2)) ++ flatten rest
+
+def handleRunMulti (args : List String) : String :=
+  match args with
+  | t :: _ =>
+    match parseKinds t, parseRunWith (fun _ => some .lcov) args with
+    | some kinds, some (o, w, ins) =>
+      match runMulti o w ins kinds with
+      | .ok arts => "ok " ++ showFiles (flatten arts)
+      | .panic _ => "panic"
+    | _, _ => "bad-op"
+  | [] => "bad-op"
 
 end Grcov.Drv.RunAll
